@@ -605,6 +605,23 @@ def regression_cases(d):
     lib = open(os.path.join(d, "lib.a"), "rb").read()
     cases.append(("archive", "ar.trunc", "lib.a truncated 7 bytes before its end (inside the last member's data)", LINKS["exe"], "lib.a", lib[:len(lib) - 7]))
     cases.append(("archive", "ar.trunc", "lib.a truncated in the middle of the first member's data", LINKS["exe"], "lib.a", lib[:lib.index(b"\x7fELF") + 100]))
+    # deeply nested expression in a linker script (the recursive-descent expression parser has no depth limit)
+    nest = "(" * 400 + "1" + ")" * 400
+    cases.append(("linker-script", "text", "ASSERT with 400 nested parentheses", LINKS["script"], "script.ld",
+                  (SCRIPT_LD + f"\nASSERT(({nest}) == ({nest}), \"nesting\")\n").encode("latin1")))
+    # symbol whose st_value makes section address + offset wrap around (fixed: reported as an error)
+    data = bytearray(open(os.path.join(d, "a.o"), "rb").read())
+    em = ElfMap(bytes(data))
+    for i, sc in enumerate(em.secs):
+        if sc[2] == 2:      # SHT_SYMTAB
+            nsym = sc[6] // 24
+            for k in range(1, nsym):
+                shndx = struct.unpack_from("<H", data, sc[5] + 24 * k + 6)[0]
+                if 0 < shndx < 0xff00 and (data[sc[5] + 24 * k + 4] >> 4) == 1:
+                    b = bytearray(data)
+                    struct.pack_into("<Q", b, sc[5] + 24 * k + 8, 0xFFFFFFFFFFFFFFFF)
+                    cases.append(("object", "sym.st_value", f".symtab[{k}].st_value=0xffffffffffffffff", LINKS["exe-nogc"], "a.o", bytes(b)))
+                    break
     # self-referencing response file
     cases.append(("response-file", "text", "@rsp.txt containing @rsp.txt", ["@rsp.txt"], "rsp.txt", b"-o out main.o a.o @rsp.txt\n"))
     return cases
